@@ -6,6 +6,7 @@ mod pexp;
 mod plog;
 mod props;
 mod run;
+mod sched;
 
 use std::time::{Duration, Instant};
 
